@@ -34,6 +34,12 @@ POOL = {
     18: 'L:\n    nop\n    j L\n    li x9, L\n',
     19: 'BASE = 0x1000\n    lui x5, %hi(BASE)\n    addi x5, x5, %lo(BASE)\n',
     20: 'BASE = 0x1800\n    lui x5, %hi(BASE)\n    addi x5, x5, %lo(BASE)\n',
+    # a failing call that names an unknown register / symbol, and valid programs that define that very name afterwards
+    21: '    addi W, W, 1\n',
+    22: 'W = s0\n    addi W, W, 1\n    c.mv x8, W\n',
+    23: 'W:\n    nop\n    j W\n',
+    24: '    mv x5, Q9\n',
+    25: 'Q9 = 7\n    addi x5, x0, Q9\n',
 }
 BASELINE_SNIPPET = r'''
 import sys, json
@@ -145,7 +151,7 @@ def _cli_seed(args):
 def c16(run, scratch):
     cfg = os.path.join(scratch, 'sess.cfg')
     pool = set(POOL)
-    pool3 = {1, 2, 6, 8, 13, 14} if run.tier == 'quick' else {1, 2, 3, 4, 6, 8, 10, 12, 13, 14, 17, 18}
+    pool3 = {1, 6, 13, 14, 21, 22} if run.tier == 'quick' else {1, 2, 3, 4, 6, 8, 10, 12, 13, 14, 17, 18, 21, 22, 24, 25}
     tlc.write_cfg(cfg, spec='Spec', constants={'Pool': pool, 'Pool3': pool3, 'MaxLen': 3 if run.tier == 'quick' else 4},
                   invariants=['Export'], properties=['TablesConstant'])
     r = tlc.run('AsmSession', cfg, workers=1, heap='4g', timeout=3600)
@@ -209,7 +215,7 @@ def c16(run, scratch):
     run.coverage['distinct_call_inputs_baselined'] = len(base)
     run.coverage['cli_hash_seed_runs'] = len(jobs)
     run.coverage['exhaustive'] = True
-    run.coverage['rule'] = ('TLC enumerates every history of <= 3 (4) calls over 20 interfering programs (incl. pairs that share the text of every line but not its meaning) (same names as constant / label / register alias in different programs, '
+    run.coverage['rule'] = ('TLC enumerates every history of <= 3 (4) calls over 25 interfering programs (incl. pairs that share the text of every line but not its meaning) (same names as constant / label / register alias in different programs, '
                             'failures in parse / constants / immediates / encode / error directive, compressible layouts) x compress x dictionary mode (not passed / fresh / the '
                             'objects of the previous call); the third and later calls range over a sub-pool; every history is replayed in one interpreter (thousands back to back) '
                             'and each call compared with the same call alone in a fresh interpreter; module tables digested after every call; every program run through the CLI '
